@@ -72,6 +72,9 @@ fn judge(id: &str, scn: &ParScn, o: &Outcome, st: &mut Stats) -> Vec<Violation> 
         match class {
             "deadlock" => {
                 add("C08.deadlock", format!("no task runnable before all had finished: {}", f));
+                if scn.consumer == Consumer::Drain && !init_fault {
+                    add("C07.not_delivered_deadlock", format!("the draining consumer never gets the remaining record sets: {}", f));
+                }
                 if init_fault {
                     add("C15.init_failure_hangs", format!("a failing init closure made the call hang instead of returning Err: {}", f));
                 }
@@ -374,6 +377,12 @@ fn judge(id: &str, scn: &ParScn, o: &Outcome, st: &mut Stats) -> Vec<Violation> 
     }
     if let Some(r) = &h.runahead {
         add("C16.runahead", r.clone());
+    }
+    if let Some(r) = &h.runahead_work {
+        add("C16.runahead_vs_processed", r.clone());
+    }
+    if h.bytes_bound_checked > 0 {
+        st.probe("probe.bytes_pulled_bound_checked");
     }
     if h.fills_ok > q + 1 {
         st.probe("probe.recycling_needed");
